@@ -286,8 +286,12 @@ func cmdCheck(args []string) int {
 			}
 		}
 	}
+	staleFns := map[string]bool{}
 	for _, u := range unsupported {
 		oc.undecided = append(oc.undecided, "unsupported: "+u)
+		if k := strings.Index(u, ": "); k > 0 {
+			staleFns[u[:k]] = true
+		}
 	}
 	if nObl == 0 {
 		oc.undecided = append(oc.undecided, "no obligations generated for "+prop)
@@ -326,6 +330,14 @@ func cmdCheck(args []string) int {
 		}
 		rp := filepath.Join(replayDir, fmt.Sprintf("%s_%s.json", prop, safeName(id)))
 		found, wit := e.findFailingInput(prop, id, obs, *tier, seed)
+		// A failed obligation of a function whose contract no longer matches the code (a lemma use, ghost statement or
+		// assertion of the contract names something that is gone, or its site is never reached: hypotheses were lost) is
+		// not reliable: a renamed local is enough to produce it. It counts as a violation only with a failing input
+		// replayed on the real code; otherwise it is reported as undecided.
+		if !found && len(obs) > 0 && staleFns[obs[0].Func] {
+			oc.undecided = append(oc.undecided, fmt.Sprintf("obligation %s failed, but the contract of %s no longer matches the code (hypotheses were lost) and the witness family has no failing input: not reported as a violation", id, obs[0].Func))
+			continue
+		}
 		writeReplay(rp, prop, id, obs, found, wit)
 		line := fmt.Sprintf("VIOLATION property=%s replay=%s", prop, rp)
 		if !found {
